@@ -21,3 +21,11 @@ VARIANTS = [
     fire("c17-subcircuit-wrapped-again", [(QS, "    def starts_with_prepare(self, _name):\n        return True", "    def starts_with_prepare(self, _name):\n        return False")], ("C17.5", "starts_with_prepare"), P),
     silent("c17-default-early-continue", [(QS, "                ret.append(self.default_argument)\n            else:\n                ret.append(lookup_object(self.argument))", "                argument = self.default_argument\n            else:\n                argument = lookup_object(self.argument)\n            ret.append(argument)")], P),
 ]
+
+QS17 = "src/jaqalpaq/qsyntax/qsyntax.py"
+VARIANTS += [
+    # reverting fix 7b8c785
+    fire("c17-qsyntax-probes-with-importlib",
+         [(QS17, "                get_jaqal_gates(module)\n", "                importlib.import_module(module)\n")],
+         ("C17.8", "circuit_from_stack:direct-import"), ("C17",)),
+]
